@@ -1,10 +1,27 @@
 HOOK_COMMITS = ["7de202d"]
-FIX_COMMITS = ["7a73b90", "307c7cf", "73e9739", "b6ad768", "06a0422", "37593fd", "b26bda1"]
+FIX_COMMITS = ["7a73b90", "307c7cf", "73e9739", "b6ad768", "06a0422", "37593fd", "b26bda1", "ef4414e", "83534a3", "9d32858", "8df6799", "bfa46be"]
 
 NOTE_COMMON = ("Trusted: Lean kernel (axioms propext/Classical.choice/Quot.sound only), the hand-written model's "
                "fidelity outside the sampled correspondence, rustc/std and third-party crates as black boxes, the guarded hooks.")
 
 CLAIMS = {
+    "C05": {
+        "level": "Kernel-checked theorems over an abstract file system, for any per-file processing function (every command list, mode and renderer): "
+                 "after a successful -i run each named file holds exactly the output computed for it, identity processing leaves files byte-identical, "
+                 "a path whose content changed is a named file or the backup sibling of one, and with --backup the sibling holds the original bytes "
+                 "(under the stated separation of names and backup paths); execute()'s records do not depend on -i. Every run compares the real binary's "
+                 "directory after `-i` with the stdout of the same invocation without -i per file, with the originals for motion-only lists, and with the model's write-back plan, in all four modes, with and without --backup.",
+        "note": NOTE_COMMON + " The file system is modelled as an association list; fs::write/fs::copy are assumed atomic-or-abort.",
+        "technique": "Lean 4 proof over a file-system plan model (parametric processing) + twin-run comparison on the real binary + model plan correspondence",
+    },
+    "C06": {
+        "level": "Kernel-checked: for every fault pattern (which files cannot be read / whose processing aborts), every file list, backup setting and "
+                 "processing function, a run that exits non-zero leaves the file system exactly as it was (no partial writes, no half-done backup), and it "
+                 "exits non-zero iff a fault exists; the pre-fix serial driver is kept with a kernel-checked counterexample. Every run executes the full fault "
+                 "matrix on the real binary (2-4 files, every subset/position, invalid UTF-8 / template abort / directory / vanished, five modes, +-backup) and compares the whole directory listing and exit status with the model's plan.",
+        "note": NOTE_COMMON + " Not modelled: a write that fails midway, a crash inside fs::write, races between argument validation and reading.",
+        "technique": "Lean 4 proof over a file-system plan model with arbitrary fault plan + exhaustive small-scope fault matrix on the real binary",
+    },
     "C15": {
         "level": "Kernel-checked theorems over the reader's byte queue, for arbitrary following bytes: an unescaped <name> whose name is in the alias "
                  "table is consumed as that one key; a non-alias <...> and an escaped \\< are the literal character; each documented alias and its raw "
